@@ -1,18 +1,24 @@
 CONSTANTS
   MaxObj = 3
-  MaxSteps = 5
+  MaxSteps = 6
   CreateClasses = {"Mid","Leaf","DD"}
-  QueryClasses = {"Base","Mid","DA","DB1"}
+  QueryClasses = {"DA","Base","Mid"}
   AllowClear = TRUE
   AllowRelate = FALSE
   AllowQueryX = FALSE
-  AllowSweep = FALSE
-  CopyModes = {}
+  AllowSweep = TRUE
+  CopyModes = {"copy","from_dao"}
   UnregisteredModes = {}
-  Hist = TRUE
+  Hist = FALSE
   PopIdOfNone = FALSE
   StaleRelationIndex = FALSE
   DupSubclassList = FALSE
   StrongExprTable = FALSE
 SPECIFICATION Spec
-CONSTRAINT Emit
+INVARIANT TypeOK
+INVARIANT C13
+INVARIANT C14
+INVARIANT C20reg
+INVARIANT C20pin
+INVARIANT C20same
+INVARIANT RegistryComplete
